@@ -453,6 +453,8 @@ class BlackbirdProgram:
                     and other.dtype == value.dtype
                     and other.shape == value.shape
                     and np.array_equal(other, value)
+                    and np.array_equal(np.signbit(other.real), np.signbit(value.real))
+                    and np.array_equal(np.signbit(other.imag), np.signbit(value.imag))
                 ):
                     return var_name
 
